@@ -196,7 +196,7 @@ def main(argv=None):
             "format_spec": args.format,
         }
         query = urlencode({k: v for k, v in qparams.items() if v})
-        uri += "&" if urlparse(uri).query else "?" + query
+        uri += ("&" if urlparse(uri).query else "?") + query
 
     if args.split:
         if not args.writer:
